@@ -109,6 +109,27 @@ func (ck *checker) path(p jpref.Path, label string, datas []any) {
 	cs := map[string]any{"path_spec": p.String()}
 	c.Begin("jp path round trip", cs)
 	x := jpspec.ToExpr(p)
+	// the same expression through the builder functions (jp.R().C("a").N(1)... in both spellings) must be the
+	// same expression: same fragments, same two texts
+	for _, long := range []bool{false, true} {
+		var xb jp.Expr
+		var same bool
+		var got string
+		if pn := mon.Guard(func() {
+			xb = jpspec.ToExprAPI(p, long)
+			same = len(xb) == len(x) && xb.String() == x.String() && xb.BracketString() == x.BracketString()
+			for i := 0; same && i < len(x); i++ {
+				same = fmt.Sprintf("%T", x[i]) == fmt.Sprintf("%T", xb[i])
+			}
+			got = xb.BracketString()
+		}); pn != nil {
+			c.Violation("jp builder functions", "panic", label, cs, "an expression", pn.String())
+		} else if !same {
+			c.Violation("jp builder functions", "builder-gives-another-expression", label, with(cs, "long_names", long), clip(x.BracketString()), clip(got))
+		}
+		c.Cover("form:builder-functions")
+		c.Eval(1)
+	}
 	for _, br := range []bool{false, true} {
 		form := "String"
 		if br {
